@@ -436,6 +436,17 @@ class CallMixin:
         if short == "range":
             if all(isinstance(a, int) for a in args):
                 return [("val", tuple(range(*args)), st)]
+            if len(args) == 1 and is_sym(args[0], "int"):
+                # range(n) with symbolic n: generic-element list whose element is an arbitrary index j with 0 <= j < n
+                j = fresh("int", "range_index")
+                st.assume(z3.Implies(args[0].t > 0, z3.And(j.t >= 0, j.t < args[0].t)))
+                n = z3.If(args[0].t > 0, args[0].t, 0)
+                return [("val", st.alloc("list", {"__kind__": "glist", "len": n, "elem": j, "is_range": True}), st)]
+        if short == "enumerate" and isinstance(args[0], Ref) and st.get(args[0]).get("__kind__") == "glist":
+            g = st.get(args[0])
+            j = fresh("int", "enum_index")
+            st.assume(z3.Implies(g["len"] > 0, z3.And(j.t >= 0, j.t < g["len"])))
+            return [("val", st.alloc("list", {"__kind__": "glist", "len": g["len"], "elem": (j, g["elem"]), "is_range": True}), st)]
         if short == "enumerate":
             return [("val", tuple((i, x) for i, x in enumerate(self.concrete_items(args[0], st))), st)]
         if short == "zip":
@@ -508,6 +519,8 @@ class CallMixin:
         return isinstance(v, Ref) and v.cls == "exc:" + name
 
     def len_(self, v, st):
+        if isinstance(v, tuple) and v and isinstance(v[0], str) and v[0] in ("bytes_of", "b64", "typeof", "super", "superext"):
+            return self.hooks.len_of(self, st, v)  # engine pseudo-values are not Python tuples
         if isinstance(v, (str, tuple, bytes)):
             return [("val", len(v), st)]
         if is_sym(v, "str"):
